@@ -155,6 +155,33 @@ func Docs() map[string]func() *sbom.Document {
 			return d
 		},
 		"empty": func() *sbom.Document { return sbom.NewDocument() },
+		// size class: every repeated field holds 20 unsorted entries, one edge has 40 unsorted targets
+		"wide": func() *sbom.Document {
+			d := sbom.NewDocument()
+			d.Metadata.Id = "urn:uuid:0b8e2a5e-6c1b-4f6e-9a89-222222222222"
+			mk := func(id, tag string) *sbom.Node {
+				n := &sbom.Node{}
+				gen.Full(n, tag, 20)
+				reverseLists(n.ProtoReflect())
+				// interleave so that the order is neither ascending nor descending
+				n.Licenses[0], n.Licenses[7] = n.Licenses[7], n.Licenses[0]
+				n.Attribution[1], n.Attribution[12] = n.Attribution[12], n.Attribution[1]
+				n.FileTypes[2], n.FileTypes[15] = n.FileTypes[15], n.FileTypes[2]
+				n.Id, n.Type = id, sbom.Node_PACKAGE
+				n.PrimaryPurpose = n.PrimaryPurpose[:1]
+				return n
+			}
+			d.NodeList.Nodes = []*sbom.Node{mk("w", "A"), mk("v", "B")}
+			var tos []string
+			for i := 39; i >= 0; i-- {
+				id := fmt.Sprintf("t%02d", (i*7)%40)
+				tos = append(tos, id)
+				d.NodeList.Nodes = append(d.NodeList.Nodes, &sbom.Node{Id: id, Name: id})
+			}
+			d.NodeList.Edges = []*sbom.Edge{{From: "w", Type: sbom.Edge_contains, To: tos}, {From: "v", Type: sbom.Edge_dependsOn, To: append([]string{}, tos[:20]...)}}
+			d.NodeList.RootElements = []string{"w"}
+			return d
+		},
 	}
 }
 
@@ -170,6 +197,9 @@ func Ops(d *sbom.Document) []Op {
 	add := func(name string, f func(d, aux *sbom.Document)) { ops = append(ops, Op{name, f}) }
 	nl := d.NodeList
 	for i := range nl.Nodes {
+		if i >= 4 {
+			break // wide documents: per-node operations on the first four nodes (the rest are plain edge targets)
+		}
 		i := i
 		id := nl.Nodes[i].Id
 		tag := fmt.Sprintf("nodes[%d]", i)
@@ -181,7 +211,7 @@ func Ops(d *sbom.Document) []Op {
 		add(tag+".Diff(self)", func(d, _ *sbom.Document) { d.NodeList.Nodes[i].Diff(d.NodeList.Nodes[i]) })
 		for j := range nl.Nodes {
 			j := j
-			if j == i {
+			if j == i || j >= 4 {
 				continue
 			}
 			add(fmt.Sprintf("%s.Equal(nodes[%d])", tag, j), func(d, _ *sbom.Document) { d.NodeList.Nodes[i].Equal(d.NodeList.Nodes[j]) })
